@@ -1,0 +1,38 @@
+//go:build verif
+
+// Machine-checked contracts of the main-chain NeoFS contract (comment-only; read by the
+// verifier in /verif, ignored by every compiler because of the build tag).
+
+package neofs
+
+/*@
+module authz
+props C03 C16 C17
+use common core
+dialect neovm
+// Authorisation table (C03): one line per exported method with the witness its documentation requires.
+// Checked by the zero-annotation sweep: on every normal exit that changed state (storage write,
+// notification, state-changing call) the formula holds; `safe` methods never change state.
+// alphabet() = 2/3+1 multisig of the chain committee, cmtaddr() = its majority multisig.
+
+// irc = majority multisig of the designated NeoFSAlphabet keys (main chain)
+witness Update [C03,C16]               : W(MS(len(designated()) / 2 + 1, designated()))
+witness InnerRingCandidateAdd [C03]    : W(key)
+// the candidate itself, or the Alphabet (multisig with Notary; some witnessed Alphabet key without)
+witness InnerRingCandidateRemove [C03] : W(key) || anyWitness
+witness Withdraw [C03]                 : W(user)
+witness Bind [C03]                     : W(user)
+witness Unbind [C03]                   : W(user)
+// with Notary: the Alphabet multisig; without: the witness of a key of the stored Alphabet list (C17)
+witness Cheque [C03,C17]               : W(alphabet()) || anyWitness
+witness AlphabetUpdate [C03,C17]       : W(alphabet()) || anyWitness
+witness SetConfig [C03,C17]            : W(alphabet()) || anyWitness
+// documented exception: deposits need no witness, the callback only notifies (C19)
+witness OnNEP17Payment [C03]           : true
+safe AlphabetList [C03]
+safe AlphabetAddress [C03]
+safe InnerRingCandidates [C03]
+safe Config [C03]
+safe ListConfig [C03]
+safe Version [C03]
+@*/
